@@ -53,9 +53,10 @@ def column_def(sq, j):
     return cc.v
 
 def index_create(sq, j):
-    e = sq.e
-    ic = Cell(e.call(IX + 'new', [])); r = Ref(ic, True)
-    for c in j['calls']:
+    ic = Cell(sq.e.call(IX + 'new', [])); index_apply(sq, ic, j['calls']); return ic.v
+def index_apply(sq, ic, calls):
+    e = sq.e; r = Ref(ic, True)
+    for c in calls:
         k = c[0]
         if k == 'name': e.call(IX + 'name::<std::string::String>', [r, sq.string(c[1])])
         elif k == 'table': e.call(IX + 'table::<types::TableRef>', [r, tableref(sq, c[1])])
@@ -70,24 +71,24 @@ def index_create(sq, j):
         elif k == 'include': e.call(IX + 'include::<%s>' % DI, [r, sq.iden(c[1])])
         elif k == 'and_where': e.call('<index::create::IndexCreateStatement as query::condition::ConditionalStatement>::and_where', [r, sq.expr(c[1])])
         else: raise Unsupported('index call ' + k)
-    return ic.v
 
 def fk_create(sq, j):
-    e = sq.e
-    fc = Cell(e.call(FK + 'new', [])); r = Ref(fc, True)
-    for c in j['calls']:
+    fc = Cell(sq.e.call(FK + 'new', [])); fk_apply(sq, fc, j['calls']); return fc.v
+def fk_apply(sq, fc, calls):
+    e = sq.e; r = Ref(fc, True)
+    for c in calls:
         k = c[0]
         if k == 'name': e.call(FK + 'name::<std::string::String>', [r, sq.string(c[1])])
         elif k in ('from_tbl', 'to_tbl'): e.call(FK + '%s::<types::TableRef>' % k, [r, tableref(sq, c[1])])
         elif k in ('from_col', 'to_col'): e.call(FK + '%s::<%s>' % (k, DI), [r, sq.iden(c[1])])
         elif k in ('on_delete', 'on_update'): e.call(FK + k, [r, Adt('ForeignKeyAction', c[1], [])])
         else: raise Unsupported('fk call ' + k)
-    return fc.v
 
 def table_create(sq, j):
-    e = sq.e
-    tc = Cell(e.call(TC + 'new', [])); r = Ref(tc, True)
-    for c in j['calls']:
+    tc = Cell(sq.e.call(TC + 'new', [])); table_create_apply(sq, tc, j['calls']); return tc.v
+def table_create_apply(sq, tc, calls):
+    e = sq.e; r = Ref(tc, True)
+    for c in calls:
         k = c[0]
         if k == 'table': e.call(TC + 'table::<types::TableRef>', [r, tableref(sq, c[1])])
         elif k in ('if_not_exists', 'temporary'): e.call(TC + k, [r])
@@ -97,12 +98,12 @@ def table_create(sq, j):
         elif k == 'check': e.call(TC + 'check', [r, sq.expr(c[1])])
         elif k in ('comment', 'engine', 'collate', 'character_set', 'extra'): e.call(TC + '%s::<std::string::String>' % k, [r, sq.string(c[1])])
         else: raise Unsupported('table create call ' + k)
-    return tc.v
 
 def table_alter(sq, j):
-    e = sq.e
-    tc = Cell(e.call(TA + 'new', [])); r = Ref(tc, True)
-    for c in j['calls']:
+    tc = Cell(sq.e.call(TA + 'new', [])); table_alter_apply(sq, tc, j['calls']); return tc.v
+def table_alter_apply(sq, tc, calls):
+    e = sq.e; r = Ref(tc, True)
+    for c in calls:
         k = c[0]
         if k == 'table': e.call(TA + 'table::<types::TableRef>', [r, tableref(sq, c[1])])
         elif k in ('add_column', 'add_column_if_not_exists', 'modify_column'): e.call(TA + '%s::<table::column::ColumnDef>' % k, [r, column_def(sq, c[1])])
@@ -114,12 +115,12 @@ def table_alter(sq, j):
             e.call(TA + 'add_foreign_key', [r, tfk])
         elif k == 'drop_foreign_key': e.call(TA + 'drop_foreign_key::<%s>' % DI, [r, sq.iden(c[1])])
         else: raise Unsupported('table alter call ' + k)
-    return tc.v
 
 def simple(sq, ty, new, calls, table):
     """statements whose calls take no / one table-ref / one string argument"""
-    e = sq.e
-    c0 = Cell(e.call(new, [])); r = Ref(c0, True)
+    c0 = Cell(sq.e.call(new, [])); simple_apply(sq, c0, calls, table); return c0.v
+def simple_apply(sq, c0, calls, table):
+    e = sq.e; r = Ref(c0, True)
     for c in calls:
         k = c[0]; kind, path = table[k]
         if kind == 'unit': e.call(path, [r])
@@ -129,7 +130,21 @@ def simple(sq, ty, new, calls, table):
         elif kind == 'iden': e.call(path, [r, sq.iden(c[1])])
         elif kind == 'idens': e.call(path, [r, vec([sq.iden(x) for x in c[1]])])
         else: raise Unsupported(kind)
-    return c0.v
+
+DROP_P = 'table::drop::TableDropStatement::'
+SIMPLE_TABLES = {
+ 'table_drop': {'table': ('table', DROP_P + 'table::<types::TableRef>'), 'if_exists': ('unit', DROP_P + 'if_exists'), 'restrict': ('unit', DROP_P + 'restrict'), 'cascade': ('unit', DROP_P + 'cascade')},
+ 'table_rename': {'table': ('table2', 'table::rename::TableRenameStatement::table::<types::TableRef, types::TableRef>')},
+ 'table_truncate': {'table': ('table', 'table::truncate::TableTruncateStatement::table::<types::TableRef>')},
+}
+def apply_calls(sq, kind, cell, calls):
+    """apply further builder calls to an existing statement held in `cell`"""
+    if kind == 'table_create': table_create_apply(sq, cell, calls)
+    elif kind == 'table_alter': table_alter_apply(sq, cell, calls)
+    elif kind == 'index_create': index_apply(sq, cell, calls)
+    elif kind == 'fk_create': fk_apply(sq, cell, calls)
+    elif kind in SIMPLE_TABLES: simple_apply(sq, cell, calls, SIMPLE_TABLES[kind])
+    else: raise Unsupported('apply_calls on ' + kind)
 
 def build(sq, st):
     """-> (statement value, trait, prepare method)"""
